@@ -8,10 +8,12 @@ CONSTANT TIER   \* unused (the graph is always explored completely); keeps the g
 
 VARIABLE S
 
-Ops == { a.op : a \in Acts }
-OpSeq == CHOOSE s \in [1..Cardinality(Ops) -> Ops] : \A o \in Ops : \E i \in 1..Cardinality(Ops) : s[i] = o
+OpSeq == <<"RecoverClient", "IBCSoftwareUpgrade", "UpdateClientParams", "UpdateConnectionParams", "TransferParams", "ICAHostParams",
+           "ICAControllerParams", "RLAdd", "RLUpdate", "RLRemove", "RLReset", "CreateClient", "RegisterCounterparty",
+           "DeleteClientCreator", "UpdateClientConfig", "UpdateClient", "RecvV2", "AckV2", "TimeoutV2">>
+ASSUME { a.op : a \in Acts } = { OpSeq[i] : i \in DOMAIN OpSeq }
 Idx(op) == CHOOSE i \in DOMAIN OpSeq : OpSeq[i] = op
-N == Cardinality(Ops)
+N == Len(OpSeq)
 \* registers 1..N: op taken ok, N+1..2N: op rejected, 2N+1..: special witnesses
 W(i, name) == IF TLCGet(i) = 0 THEN TLCSet(i, 1) /\ PrintT(<<"WITNESS", name>>) ELSE TRUE
 Witness(a, r) ==
